@@ -114,6 +114,14 @@ edit('interp/vars.go', lambda s: s.replace('\t\tif prev.Map == nil {\n\t\t\tprev
 edit('syntax/lexer.go', lambda s: s.replace('\t\tp.bsp = uint(len(p.bs)) + 1\n\t\tp.r = runeEOF\n','\t\tp.bsp = 1 + uint(len(p.bs))\n\t\tp.r = runeEOF\n'))
 edit('cmd/shfmt/main.go', lambda s: renameIn(s,'func formatStdin(','src','input'))
 edit('pattern/pattern.go', lambda s: s.replace('\t\t\tif sl.peekNext() != \')\' {','\t\t\tif \')\' != sl.peekNext() {'))
+# seventh batch: refactors around the round-5 rules
+edit('syntax/parser.go', lambda s: s.replace('\tif tc.X = p.testExprBinary(false); tc.X == nil {\n\t\tp.followErrExp(tc.Left, dblLeftBrack)\n\t}\n','\tinner := p.testExprBinary(false)\n\tif nil == inner {\n\t\tp.followErrExp(tc.Left, dblLeftBrack)\n\t}\n\ttc.X = inner\n'))
+edit('syntax/parser_arithm.go', lambda s: s.replace('\t\ty := nextOp(compact)\n\t\tif y == nil {\n\t\t\tp.followErrExp(pos, foundOp)\n\t\t}\n','\t\trhs := nextOp(compact)\n\t\tif rhs != nil {\n\t\t} else {\n\t\t\tp.followErrExp(pos, foundOp)\n\t\t}\n\t\ty := rhs\n'))
+edit('syntax/parser.go', lambda s: s.replace('\thdocs := p.heredocs[p.buriedHdocs:]\n\tif len(hdocs) == 0 {\n','\tif len(p.heredocs) <= p.buriedHdocs {\n\t\treturn\n\t}\n\thdocs := p.heredocs[p.buriedHdocs:]\n\tif 0 == len(hdocs) {\n'))
+edit('syntax/lexer.go', lambda s: s.replace('\t\tif left > 0 {\n\t\t\tp.bs = p.readBuf[:left]\n\t\t} else {\n\t\t\tp.bs = nil\n\t\t}\n','\t\tif left <= 0 {\n\t\t\tp.bs = nil\n\t\t} else {\n\t\t\tp.bs = p.readBuf[:left]\n\t\t}\n'))
+edit('syntax/lexer.go', lambda s: s.replace('p.bs[p.bsp-uint(p.w):p.bsp]...)','p.bs[p.bsp-uint(int(p.w)):p.bsp]...)'))
+edit('syntax/parser.go', lambda s: s.replace('\tw := p.getWord()\n\tif op == OtherParamOps && w != nil && w.Lit() == "" {','\toperand := p.getWord()\n\tw := operand\n\tif w != nil && op == OtherParamOps && "" == w.Lit() {'))
+edit('syntax/parser.go', lambda s: s.replace('\tcc.Name = p.getWord()\n\tcc.Stmt = p.gotStmtPipe(&Stmt{Position: p.pos}, false)\n\tif cc.Stmt == nil {','\tcc.Name = p.getWord()\n\tinner := &Stmt{Position: p.pos}\n\tcc.Stmt = p.gotStmtPipe(inner, false)\n\tif cc.Stmt == nil {'))
 PY
 GOFLAGS=-mod=mod GOPROXY=off go build ./...
 cd /verif
